@@ -31,6 +31,7 @@ type Result struct {
 	Output  string  `json:"-"`
 	Info    string  `json:"info,omitempty"`
 	Answers map[string]string `json:"answers,omitempty"`
+	Paths   int               `json:"paths,omitempty"`
 }
 
 type solverSpec struct {
@@ -66,7 +67,7 @@ func newSolver(tier string, cacheDir string) (*Solver, error) {
 	if err != nil {
 		return nil, err
 	}
-	s := &Solver{dir: dir, cacheDir: cacheDir, useCache: tier == "quick", timeout: 10, all: tier == "thorough"}
+	s := &Solver{dir: dir, cacheDir: cacheDir, useCache: tier == "quick", timeout: 20, all: tier == "thorough"}
 	if tier == "thorough" {
 		s.timeout = 60
 	}
@@ -111,7 +112,11 @@ func firstLine(out string) string {
 }
 
 func (s *Solver) runOne(sp solverSpec, file string, timeout int, model bool) (answer, output string, secs float64) {
-	ctx, cancel := context.WithTimeout(context.Background(), time.Duration(timeout+5)*time.Second)
+	return s.runOneCtx(context.Background(), sp, file, timeout, model)
+}
+
+func (s *Solver) runOneCtx(parent context.Context, sp solverSpec, file string, timeout int, model bool) (answer, output string, secs float64) {
+	ctx, cancel := context.WithTimeout(parent, time.Duration(timeout+5)*time.Second)
 	defer cancel()
 	args := sp.args(file, timeout, model)
 	t0 := time.Now()
@@ -126,6 +131,8 @@ func (s *Solver) runOne(sp solverSpec, file string, timeout int, model bool) (an
 	switch {
 	case fl == "unsat", fl == "sat", fl == "unknown":
 		answer = fl
+	case parent.Err() != nil:
+		answer = "cancelled"
 	case fl == "timeout" || strings.Contains(fl, "timeout") || ctx.Err() != nil || strings.Contains(output, "interrupted by timeout"):
 		answer = "timeout"
 	case strings.HasPrefix(fl, "(error"):
@@ -138,15 +145,70 @@ func (s *Solver) runOne(sp solverSpec, file string, timeout int, model bool) (an
 	return
 }
 
-// solve decides one obligation.
+// solve decides one obligation; an obligation reached on several paths is decided path by path
+// (one query per path, same name) and is discharged when every path is.
 func (s *Solver) solve(d *Decls, o *Obligation) *Result {
+	if len(o.Cases) > 0 && o.Expect == "not-unsat" {
+		// reachability canary: some exit path must have a context that is not contradictory
+		all := append([]OblCase{{Assume: o.Assume, Goal: o.Goal}}, o.Cases...)
+		var last *Result
+		total := 0.0
+		for i, c := range all {
+			sub := &Obligation{Name: o.Name, Kind: o.Kind, Assume: c.Assume, Goal: c.Goal, Func: o.Func, Expect: o.Expect, Info: o.Info}
+			r := s.solveOne(d, sub)
+			total += r.TimeS
+			r.Paths = i + 1
+			last = r
+			if r.Status == "discharged" || r.Status == "fault" {
+				break
+			}
+		}
+		last.TimeS = total
+		return last
+	}
+	if len(o.Cases) == 0 || o.Expect != "unsat" {
+		return s.solveOne(d, o)
+	}
+	all := append([]OblCase{{Assume: o.Assume, Goal: o.Goal}}, o.Cases...)
+	var agg *Result
+	for i, c := range all {
+		if c.Goal == "true" {
+			continue
+		}
+		sub := &Obligation{Name: o.Name, Kind: o.Kind, Assume: c.Assume, Goal: c.Goal, Func: o.Func, Expect: o.Expect, Info: o.Info}
+		r := s.solveOne(d, sub)
+		if agg == nil {
+			agg = r
+			agg.Paths = 1
+			continue
+		}
+		agg.Paths++
+		agg.TimeS += r.TimeS
+		agg.Cached = agg.Cached && r.Cached
+		if r.Status != "discharged" && agg.Status == "discharged" {
+			t, p := agg.TimeS, agg.Paths
+			*agg = *r
+			agg.TimeS, agg.Paths = t, p
+			agg.Info = fmt.Sprintf("%s (path %d of %d)", o.Info, i+1, len(all))
+		}
+	}
+	if agg == nil {
+		return &Result{Name: o.Name, Kind: o.Kind, Func: o.Func, Expect: o.Expect, Info: o.Info, Status: "discharged", Answer: "trivial", Solver: "syntactic"}
+	}
+	return agg
+}
+
+func (s *Solver) solveOne(d *Decls, o *Obligation) *Result {
 	r := &Result{Name: o.Name, Kind: o.Kind, Func: o.Func, Expect: o.Expect, Info: o.Info}
 	if o.Expect == "unsat" && o.Goal == "true" && len(o.Cases) == 0 {
 		r.Status, r.Answer, r.Solver = "discharged", "trivial", "syntactic"
 		return r
 	}
 	wantModel := true
-	q := d.queryObl(o, wantModel)
+	q := o.Raw
+	if q == "" {
+		q = d.queryObl(o, wantModel)
+	}
 	r.Query = q
 	if len(q) > 512*1024 {
 		r.Status, r.Answer = "fault", "query too large"
@@ -193,31 +255,41 @@ func (s *Solver) solve(d *Decls, o *Obligation) *Result {
 		return r
 	}
 	if !s.all {
-		// z3-new first, the others only if it does not decide
-		a, out, t := s.runOne(solvers[0], file, s.timeout, wantModel)
-		r.Answers[solvers[0].name] = a
-		r.Answer, r.Solver, r.TimeS, r.Output = a, solvers[0].name, t, out
-		if !definite(a) {
-			type res struct {
-				name, a, out string
-				t            float64
+		// race the solvers; the first definite answer wins and the others are stopped
+		type res struct {
+			name, a, out string
+			t            float64
+		}
+		ctx, cancel := context.WithCancel(context.Background())
+		ch := make(chan res, len(solvers))
+		for _, sp := range solvers {
+			sp := sp
+			go func() {
+				a, out, t := s.runOneCtx(ctx, sp, file, s.timeout, wantModel)
+				ch <- res{sp.name, a, out, t}
+			}()
+		}
+		r.Answer = "unknown"
+		for range solvers {
+			x := <-ch
+			if x.a == "cancelled" {
+				continue
 			}
-			ch := make(chan res, 2)
-			for _, sp := range solvers[1:] {
-				sp := sp
-				go func() {
-					a, out, t := s.runOne(sp, file, s.timeout, wantModel)
-					ch <- res{sp.name, a, out, t}
-				}()
-			}
-			for i := 0; i < 2; i++ {
-				x := <-ch
-				r.Answers[x.name] = x.a
-				if definite(x.a) && !definite(r.Answer) {
-					r.Answer, r.Solver, r.TimeS, r.Output = x.a, x.name, x.t, x.out
+			r.Answers[x.name] = x.a
+			if definite(x.a) && !definite(r.Answer) {
+				r.Answer, r.Solver, r.TimeS, r.Output = x.a, x.name, x.t, x.out
+				cancel()
+			} else if !definite(r.Answer) {
+				if r.Answer != "timeout" {
+					r.Answer = x.a
+				}
+				r.Solver, r.TimeS = x.name, x.t
+				if x.a == "error" {
+					r.Output += x.out
 				}
 			}
 		}
+		cancel()
 	} else {
 		type res struct {
 			name, a, out string
